@@ -266,10 +266,9 @@ Check diagnostics_unbound_refuted : forall (H : bytes -> N),
                  core_result N wroot r = core_result N wroot r' /\ map a_plan (rs_hist r) <> map a_plan (rs_hist r').
 Print Assumptions diagnostics_unbound_refuted.
 
-(* Non-vacuity: with a concrete hash (polynomial fold mod 2^256) the two-entry witness history is well formed,
+(* Non-vacuity: with a concrete hash (Hpoly, a polynomial fold mod 2^256, defined in ChainProofs3) the two-entry witness history is well formed,
    verifies, is linked, and a one-field alteration (state root of entry 0) of it is rejected with a typed error,
    while an alteration beyond the replayed prefix leaves the result unchanged. *)
-Definition Hpoly (l : bytes) : N := fold_left (fun a b => (a * 257 + b + 1) mod two256) l 7.
 Example c05_nonvacuous :
   let h := [we0 Hpoly; we1 Hpoly] in
   let e0' := {| e_wl := 1; e_tick := 0; e_gtick := 0; e_head := Some (1, 1); e_parents := []; e_kind := 0;
